@@ -284,6 +284,19 @@ func (d *instDriver) deliver(sender gpbft.ActorID, round uint64, phase gpbft.Pha
 	if err != nil {
 		return false, nil
 	}
+	// a forged twin (same vote, garbage signature) offered twice just before the genuine message: a rejected message must
+	// stay rejected when it is offered again; if the replay is admitted, the forged message is what reaches the instance
+	if d.r.chance(12) && len(msg.Signature) > 0 {
+		forged := *msg
+		forged.Signature = append([]byte{}, msg.Signature...)
+		forged.Signature[len(forged.Signature)/2] ^= 0x5a
+		if _, e1 := d.p.ValidateMessage(d.ctx, &forged); e1 != nil {
+			if _, e2 := d.p.ValidateMessage(d.ctx, &forged); e2 == nil {
+				msg = &forged
+				d.desc = append(d.desc, fmt.Sprintf("forged %s r%d from %d rejected once, ADMITTED on replay", phase, round, sender))
+			}
+		}
+	}
 	vm, err := d.p.ValidateMessage(d.ctx, msg)
 	if err != nil {
 		return false, nil // not a valid/relevant message: never reaches the instance
